@@ -136,6 +136,10 @@ def job(j):
                                     if now[:r2] != bytes0[l2][i2][:r2]:
                                         v.append(dict(kind="split-not-rebuilt-in-place", where=w3, level=l2, split=i2,
                                                       size_now=len(now), recorded=r2))
+                                    elif len(now) != len(bytes0[l2][i2]):
+                                        # a command that does not change the array size leaves every split file at its length
+                                        v.append(dict(kind="split-file-length-changed-by-fix", where=w3, level=l2, split=i2,
+                                                      size_now=len(now), size_before=len(bytes0[l2][i2]), recorded=r2))
                             chk = Ls.run("check")
                             if chk.rc != 0:
                                 v.append(dict(kind="check-fails-after-split-rebuilt", where=w3, out=chk.text()[-300:]))
